@@ -2,7 +2,7 @@
     case        : (0 base routes path)      — see harness/router/src/c14.rs
     observation : (base flat expanded match nested) *)
 From Coq Require Import List ZArith NArith.
-From LV Require Import Base.Sexp Base.Bytes Router.Match Router.Flat.
+From LV Require Import Base.Sexp Base.Bytes Router.Match Router.Flat Router.Build.
 Import ListNotations.
 
 Fixpoint as_seg (fuel : nat) (s : sexp) : seg :=
@@ -73,8 +73,36 @@ Definition run_C14_ref (c : sexp) : sexp :=
         sbool (k_boundary base rs path); sbool (k_slash_static base rs);
         sbool (k_optional rs); sbool (k_dslash path); sbool (wf_routes rs) ].
 
+(** op 2: the real path builder driven on every generated flat route and each of its
+    expansions; every built path fed back to match_route *)
+Definition as_pmap (s : sexp) : pmap :=
+  map (fun kv => (as_bytes (nth_s 0 kv), map as_bytes (as_list (nth_s 1 kv)))) (as_list s).
+
+Definition s_mres (m : mres) : sexp :=
+  match m with
+  | MNo => Lst []
+  | MPanic => Lst [Num (-1)]
+  | MYes ch ps => Lst [Num 1; s_chain ch; s_params ps]
+  end.
+
+Definition run_C14_build (c : sexp) : sexp :=
+  let base := as_opt as_bytes (nth_s 1 c) in
+  let rs := map (as_route 64) (as_list (nth_s 2 c)) in
+  let pm := as_pmap (nth_s 3 c) in
+  let flat := gen_routes rs in
+  let build (segs : list pseg) : sexp :=
+    match into_paths (registered base segs) pm with
+    | None => Lst [Num (-1)]
+    | Some paths => Lst (map (fun p => Lst [sbytes p; s_mres (match_route base rs p)]) paths)
+    end in
+  Lst [ sopt sbytes base;
+        Lst (map s_flat flat);
+        Lst (map (fun r => Lst [build r; Lst (map (fun e => Lst [s_flat e; build e]) (expand_optionals r))])
+                 flat) ].
+
 Definition run_C14 (c : sexp) : sexp :=
   match as_Z (nth_s 0 c) with
   | 1%Z => run_C14_ref c
+  | 2%Z => run_C14_build c
   | _ => run_C14_main c
   end.
